@@ -20,13 +20,13 @@ func (r *Run) filtersTombstones(fi *prog.FuncInfo) (bool, token.Pos) {
 	info := fi.Pkg.TypesInfo
 	found := false
 	var at token.Pos
-	ast.Inspect(fi.Decl.Body, func(nd ast.Node) bool {
+	inspect(fi.Decl.Body, func(nd ast.Node) bool {
 		is, ok := nd.(*ast.IfStmt)
 		if !ok {
 			return true
 		}
 		mention := false
-		ast.Inspect(is.Cond, func(m ast.Node) bool {
+		inspect(is.Cond, func(m ast.Node) bool {
 			switch x := m.(type) {
 			case *ast.CallExpr:
 				if fn := r.P.CalleeFunc(info, x); fn != nil && (fn.Name() == "IsDelete" || fn.Name() == "isDeleteOp") {
@@ -52,7 +52,7 @@ func (r *Run) filtersTombstones(fi *prog.FuncInfo) (bool, token.Pos) {
 			if b == nil {
 				return false
 			}
-			ast.Inspect(b, func(m ast.Node) bool {
+			inspect(b, func(m ast.Node) bool {
 				if br, ok := m.(*ast.BranchStmt); ok && br.Tok == token.CONTINUE {
 					s = true
 				}
@@ -63,7 +63,7 @@ func (r *Run) filtersTombstones(fi *prog.FuncInfo) (bool, token.Pos) {
 		if (!neg && skips(is.Body)) || (neg && is.Else != nil && skips(is.Else)) {
 			// a continue on the delete branch skips the entry unless the branch yields first
 			yields := false
-			ast.Inspect(is.Body, func(m ast.Node) bool {
+			inspect(is.Body, func(m ast.Node) bool {
 				if call, ok := m.(*ast.CallExpr); ok {
 					if id, ok := call.Fun.(*ast.Ident); ok && id.Name == "yield" {
 						yields = true
@@ -88,6 +88,15 @@ func (r *Run) mergeInputs(fi *prog.FuncInfo, call *ast.CallExpr) (producers []*t
 		return nil, false
 	}
 	arg := call.Args[0]
+	// a parameter of an extracted helper with one call site stands for the argument there
+	if id, ok := ast.Unparen(arg).(*ast.Ident); ok {
+		if a := derefStep(info, id); a != nil {
+			if sc := r.P.ScopeAt(a.Pos()); sc != nil && sc.Fn != nil && sc.Fn != fi && sc.Fn.Decl != nil {
+				fi, arg = sc.Fn, a
+				info = fi.Pkg.TypesInfo
+			}
+		}
+	}
 	def := resolveLocal(info, fi.Decl.Body, arg)
 	producerOf := func(e ast.Expr) *types.Func {
 		e = resolveLocal(info, fi.Decl.Body, e)
@@ -104,7 +113,7 @@ func (r *Run) mergeInputs(fi *prog.FuncInfo, call *ast.CallExpr) (producers []*t
 	}
 	// loop-filled: iters[i] = X(...)
 	obj := prog.IdentObj(info, arg)
-	ast.Inspect(fi.Decl.Body, func(nd ast.Node) bool {
+	inspect(fi.Decl.Body, func(nd ast.Node) bool {
 		if as, ok := nd.(*ast.AssignStmt); ok && len(as.Lhs) == 1 && len(as.Rhs) == 1 {
 			if ix, ok := ast.Unparen(as.Lhs[0]).(*ast.IndexExpr); ok && obj != nil && prog.IdentObj(info, ix.X) == obj {
 				producers = append(producers, producerOf(as.Rhs[0]))
@@ -139,7 +148,7 @@ func init() {
 			}
 			r.checkErrReturned(f, apply, "stateStore.ApplyMutations")
 			// the key passed to ApplyMutations / SetTimer is keyResult.Key of the same result whose mutations are applied
-			ast.Inspect(f.Decl.Body, func(nd ast.Node) bool {
+			inspect(f.Decl.Body, func(nd ast.Node) bool {
 				call, ok := nd.(*ast.CallExpr)
 				if !ok {
 					return true
@@ -169,7 +178,7 @@ func init() {
 			scan := r.P.FuncObj("dkv", "(*DB).ScanPrefix")
 			enc := r.P.FuncObj("workers/operator", "(*KeyedStateStore).encodeSubjectKey")
 			okScan := false
-			ast.Inspect(gs.Decl.Body, func(nd ast.Node) bool {
+			inspect(gs.Decl.Body, func(nd ast.Node) bool {
 				if call, ok := nd.(*ast.CallExpr); ok && r.P.CalleeFunc(gi, call) == scan && len(call.Args) == 2 {
 					r.Site(call.Pos(), "GetState scan prefix")
 					if c2, ok := ast.Unparen(call.Args[0]).(*ast.CallExpr); ok && r.P.CalleeFunc(gi, c2) == enc && len(c2.Args) == 1 && r.isParam(gs, c2.Args[0], 0) {
@@ -183,7 +192,7 @@ func init() {
 			}
 			// scan error returned
 			okErr := false
-			ast.Inspect(gs.Decl.Body, func(nd ast.Node) bool {
+			inspect(gs.Decl.Body, func(nd ast.Node) bool {
 				if is, ok := nd.(*ast.IfStmt); ok {
 					if x, notNil, ok := pathsimIsNil(gi, is.Cond); ok && notNil && strings.Contains(strings.ToLower(types.ExprString(x)), "err") {
 						for _, st := range is.Body.List {
@@ -240,7 +249,7 @@ func init() {
 			del := r.P.FuncObj("dkv", "(*DB).Delete")
 			enc := r.P.FuncObj("workers/operator", "(*KeyedStateStore).encodeDBKey")
 			// per case clause: which DB call
-			ast.Inspect(f.Decl.Body, func(nd ast.Node) bool {
+			inspect(f.Decl.Body, func(nd ast.Node) bool {
 				cc, ok := nd.(*ast.CaseClause)
 				if !ok || len(cc.List) != 1 {
 					return true
@@ -256,7 +265,7 @@ func init() {
 				kind := named.Obj().Name() // StateMutation_Put / StateMutation_Delete
 				var calls []*ast.CallExpr
 				for _, st := range cc.Body {
-					ast.Inspect(st, func(m ast.Node) bool {
+					inspect(st, func(m ast.Node) bool {
 						if c, ok := m.(*ast.CallExpr); ok {
 							if fn := r.P.CalleeFunc(info, c); fn == put || fn == del {
 								calls = append(calls, c)
@@ -296,7 +305,7 @@ func init() {
 				return true
 			})
 			// loops visit everything
-			ast.Inspect(f.Decl.Body, func(nd ast.Node) bool {
+			inspect(f.Decl.Body, func(nd ast.Node) bool {
 				if rs, ok := nd.(*ast.RangeStmt); ok {
 					for _, st := range rs.Body.List {
 						if b, ok := st.(*ast.BranchStmt); ok {
@@ -307,11 +316,11 @@ func init() {
 				return true
 			})
 			// default does not silently succeed
-			ast.Inspect(f.Decl.Body, func(nd ast.Node) bool {
+			inspect(f.Decl.Body, func(nd ast.Node) bool {
 				if cc, ok := nd.(*ast.CaseClause); ok && cc.List == nil {
 					loud := false
 					for _, st := range cc.Body {
-						ast.Inspect(st, func(m ast.Node) bool {
+						inspect(st, func(m ast.Node) bool {
 							if c, ok := m.(*ast.CallExpr); ok {
 								if id, ok := c.Fun.(*ast.Ident); ok && id.Name == "panic" {
 									loud = true
@@ -350,7 +359,7 @@ func init() {
 				// a producer that merges: its own inputs (all of them) must be raw for the output to carry tombstones
 				ok := true
 				why := ""
-				ast.Inspect(fi.Decl.Body, func(nd ast.Node) bool {
+				inspect(fi.Decl.Body, func(nd ast.Node) bool {
 					if call, isC := nd.(*ast.CallExpr); isC && r.P.CalleeFunc(fi.Pkg.TypesInfo, call) == merge {
 						ins, _ := r.mergeInputs(fi, call)
 						for _, in := range ins {
@@ -402,7 +411,7 @@ func init() {
 			if f, _ := r.filtersTombstones(dbScan); !f {
 				// acceptable only if every merged input is already filtered (then nothing needs filtering)
 				allFiltered := true
-				ast.Inspect(dbScan.Decl.Body, func(nd ast.Node) bool {
+				inspect(dbScan.Decl.Body, func(nd ast.Node) bool {
 					if call, ok := nd.(*ast.CallExpr); ok && r.P.CalleeFunc(dbScan.Pkg.TypesInfo, call) == merge {
 						ins, _ := r.mergeInputs(dbScan, call)
 						for _, in := range ins {
